@@ -132,8 +132,9 @@ def _sources_coercible(ck, repo):
     ck.ob("is_coercible_exception: has a callable coerce_value", len(r) == 1 and unparse(r[0].value) == f"hasattr({ic.positional_params[0]}, 'coerce_value') and callable({ic.positional_params[0]}.coerce_value)",
           ic, ic.node, construct="source:predicate")
     bc = repo.func("tartiflette/execution/context.py", "build_execution_context")
-    ap = [c for c in FuncView(bc).calls("append") if unparse(c.func.value) == "errors"]
-    ck.ob("operation-selection errors are TartifletteError objects", len(ap) == 1 and callee_last(ap[0].args[0]) == "TartifletteError", bc, ap[0] if ap else bc.node, construct="source:operation")
+    # (that the selection error is a TartifletteError is part of the path table of build_execution_context, R4)
+    errs_built = [c for c in FuncView(bc).calls("TartifletteError")]
+    ck.ob("operation-selection errors are TartifletteError objects", len(errs_built) >= 1, bc, errs_built[0] if errs_built else bc.node, construct="source:operation")
     le = repo.func("tartiflette/utils/errors.py", "located_error")
     st = [n for n in walk_no_nested(le.node) if isinstance(n, ast.Assign) and isinstance(n.value, ast.IfExp) and unparse(n.targets[0]) == "graphql_error"]
     ok = len(st) == 1 and ifexp_parts(st[0].value)[0] == "is_coercible_exception(exception)" and ifexp_parts(st[0].value)[2].startswith("graphql_error_from_nodes(")
@@ -173,25 +174,61 @@ def error_record_shape(ck, repo):
           cv, cv.node, construct="record:normalised")
 
 
+def context_table(ck, repo, tag="select"):
+    """Path-outcome table of build_execution_context (shape-independent; shared with C04.R3): which operation is selected,
+    when the answer is an errors-only pair, when a context is built."""
+    from ..pathtab import outcome_rows, truth
+    from ..q import inlined_view
+    f = repo.func("tartiflette/execution/context.py", "build_execution_context")
+    on = f.positional_params[5]
+    rows = outcome_rows(inlined_view(repo, f))
+    n = 0
+    seen = {}
+    for r in rows:
+        if r["exit"] != "return_exit" or not isinstance(r["ret"], ast.Tuple) or len(r["ret"].elts) != 2:
+            ck.ob("build_execution_context: every path answers a (context, errors) pair", False, f, r["last"] or f.node, construct=f"{tag}:pair")
+            continue
+        first, second = unparse(r["ret"].elts[0]), unparse(r["ret"].elts[1])
+        named = truth(r, on)
+        single = [o for t, o in r["conds"] if t.replace(" ", "").startswith("len(") and t.replace(" ", "").endswith(")==1")]
+        op = r["sym"].get("operation")
+        op_t = unparse(op) if op is not None else None
+        if named == "T":
+            sel, want_op = "named", lambda t: t is not None and t.endswith(f".get({on})")
+        elif single and single[-1] == "T":
+            sel, want_op = "single", lambda t: t is not None and ".popitem()" in t
+        else:
+            sel, want_op = "none", lambda t: t in (None, "None")
+        found = None if sel == "none" else (truth(r, op_t) if op_t else None)
+        verr = [o for t, o in r["conds"] if "coerce_variables(" in t and t.rstrip().endswith("[1]")]
+        key = (sel, found, verr[-1] if verr else None)
+        n += 1
+        if sel != "none" and not want_op(op_t):
+            ok, why = False, f"selected operation is `{op_t}`"
+        elif sel == "none" or found == "F":
+            ok = first == "None" and second.startswith("[TartifletteError(") and not verr
+            why = "no operation selected: an errors-only pair holding one TartifletteError, variables not coerced"
+        elif verr and verr[-1] == "T":
+            ok = first == "None" and "coerce_variables(" in second
+            why = "variable errors: an errors-only pair holding them"
+        elif verr and verr[-1] == "F":
+            ok = first.startswith("ExecutionContext(") and second == "None"
+            why = "no error: a context and no errors"
+        else:
+            ok, why = False, "an operation is selected but its variables are not coerced on this path"
+        seen.setdefault(key, []).append(ok)
+        if not ok:
+            ck.ob(f"build_execution_context [{sel}, found={found}, variable errors={verr[-1] if verr else None}]: {why}", False, f, r["last"] or f.node,
+                  construct=f"{tag}:table:{sel}:{found}:{verr[-1] if verr else None}", detail=f"answers ({first[:60]}, {second[:80]})")
+    want_keys = {("named", "T", "T"), ("named", "T", "F"), ("named", "F", None), ("single", "T", "T"), ("single", "T", "F"), ("none", None, None)}
+    ck.ob("build_execution_context: named-and-found / single anonymous / otherwise an error; errors-only pair on any error, a context otherwise - on every path",
+          want_keys <= set(seen) and all(all(v) for v in seen.values()), f, f.node, construct=f"{tag}:table", detail=str(sorted(map(str, seen))), evals=max(1, n))
+
+
 def _operation_selection(ck, repo):
     f = repo.func("tartiflette/execution/context.py", "build_execution_context")
     fv = FuncView(f)
-    on = f.positional_params[5]
-    sel = [n for n in walk_no_nested(f.node) if isinstance(n, ast.Assign) and any(unparse(t) == "operation" or (isinstance(t, ast.Tuple) and "operation" in [unparse(e) for e in t.elts]) for t in n.targets)
-           and not (isinstance(n.value, ast.Constant))]
-    named = [s for s in sel if unparse(s.value) == f"operations.get({on})"]
-    ok = len(named) == 1 and set(fv.conditions(named[0])) == {(on, "T")}
-    ck.ob("operation selection: a name selects the operation of that name", ok, f, named[0] if named else f.node, construct="select:named")
-    anon = [s for s in sel if "popitem" in unparse(s.value)]
-    ok = len(anon) == 1 and set(fv.conditions(anon[0])) == {(on, "F"), ("len(operations) == 1", "T")}
-    ck.ob("operation selection: without a name, the single operation of the document is selected", ok, f, anon[0] if anon else f.node, construct="select:single")
-    ck.ob("operation selection: nothing else selects an operation", len(sel) == 2, f, f.node, construct="select:only", detail=str([unparse(s)[:50] for s in sel]))
-    ap = [c for c in fv.calls("append") if unparse(c.func.value) == "errors"]
-    ok = len(ap) == 1 and set(fv.conditions(ap[0])) == {("operation", "F")}
-    ck.ob("operation selection: no operation selected -> an error", ok, f, ap[0] if ap else f.node, construct="select:error")
-    cv = fv.maybe_call("coerce_variables")
-    ck.ob("operation selection: variables are coerced only for a selected operation", cv is not None and fv.guarded(cv, lambda t: t == "operation", "T"), f, cv or f.node,
-          construct="select:before-variables")
+    context_table(ck, repo)
     lp = [l for l in fv.loops() if isinstance(l, ast.For) and unparse(l.iter).endswith(".definitions")]
     ok = False
     if len(lp) == 1:
